@@ -70,6 +70,12 @@ import ast
 import json
 import os
 
+# every source function whose control flow this translator regenerates on every run (tools/coverage_map.py reads it);
+# of ResourceTreeTraverser.__call__ only the part from `root = self.root` on is translated -- its preamble is covered by
+# the masked pin harness/c02/skeleton.json ("ResourceTreeTraverser.__call__"), see c02facts.py
+TRANSLATED = ['pyramid/traversal.py:split_path_info', 'pyramid/traversal.py:decode_path_info',
+              'pyramid/traversal.py:traversal_path_info', 'pyramid/traversal.py:ResourceTreeTraverser.__call__']
+
 HERE = os.path.dirname(os.path.abspath(__file__))
 FALLBACK = os.path.join(HERE, 'gen_fallback.json')
 
